@@ -43,6 +43,10 @@ def base_scenarios(rng, tier):
             {"name": "o2", "kind": "sys", "inputs": {}, "expose": {}, "components": [dev("deep", cb={"kind": "period", "p": 2 * P}, cost=100_000), dev("deepq", cost=100_000)]},
             dev("mid", cost=100_000)]}, dev("top", cb={"kind": "period", "p": P}, cost=100_000)], "n_ticks": 3},
     ]
+    # an upstream whose output never changes: its downstream is passed over (Skip) by ticks rooted upstream
+    cs = dev("csrc", cost=50_000)
+    cs["beh"]["outs"] = [{"port": "o", "kind": "const", "v": 5}]
+    out.append({"components": [cs, dev("csnk", {"i": ["csrc", "o"]}, cost=50_000), dev("cper", cb={"kind": "period", "p": P}, cost=50_000)], "n_ticks": 3})
     # other speeds: the stamp converts real to simulation time
     for sp in ([1, 2], [2, 1]):
         out.append({"components": [dev("far", cb={"kind": "period", "p": 50 * P}), dev("x", cost=100_000), dev("y", {"i": ["x", "o"]}, cost=100_000)], "n_ticks": 2, "speed": sp})
@@ -322,6 +326,14 @@ def run(tier, seed, drv):
         for step in range(first, last + 1, stride):
             for d in devs:
                 items.append((scn, [{"step": step, "comp": d}], scn["n_ticks"], f"{si}:{step}:{d}"))
+        # an interrupt of a DOWNSTREAM device a few loop steps after the interrupt of its upstream: the tick
+        # rooted at the upstream reaches the downstream device (updates it, or passes it over when its inputs
+        # did not change) while the downstream's own interrupt is still queued
+        wired = [(src[0], d["name"]) for d in S.devices(scn) for src in d["inputs"].values() if src[0] in devs]
+        for (u, d) in wired[:2]:
+            for s0 in range(first, last + 1, 2 if tier == "thorough" else 5):
+                for k in ((0, 1, 2, 3, 5, 8) if tier == "thorough" else (0, 2, 5)):
+                    items.append((scn, [{"step": s0, "comp": u}, {"step": s0 + k, "comp": d}], scn["n_ticks"], f"{si}:multi:pair:{u}:{d}:{s0}:{k}"))
         # simultaneous interrupts and interrupt together with a due callback
         for k in range(6 if tier == "quick" else 40):
             stims = [{"step": rng.randrange(first, last + 1), "comp": rng.choice(devs)} for _ in range(rng.randrange(2, 4))]
